@@ -112,7 +112,7 @@ func (w *World) resolveType(s string, pkg *types.Package) (types.Type, string) {
 	}
 	if i := strings.LastIndex(s, "."); i >= 0 {
 		pn, tn := s[:i], s[i+1:]
-		if p := w.findPkg(pn, pkg); p != nil {
+		for _, p := range w.findPkgs(pn, pkg) {
 			if o := p.Scope().Lookup(tn); o != nil {
 				if tnm, ok := o.(*types.TypeName); ok {
 					return tnm.Type(), ""
@@ -143,7 +143,36 @@ func (v *FnVC) sortOfSpecType(s string, pkg *types.Package) (types.Type, string)
 }
 
 // findPkg resolves a package name or path as seen from pkg.
+// findPkgs lists all packages a qualifier may denote (imports first, then the package itself, then any loaded).
+func (w *World) findPkgs(name string, from *types.Package) []*types.Package {
+	var out []*types.Package
+	if path, ok := w.Aliases[name]; ok {
+		if p := w.AllTypes[path]; p != nil {
+			return []*types.Package{p}
+		}
+	}
+	if from != nil {
+		for _, imp := range from.Imports() {
+			if imp.Name() == name || imp.Path() == name {
+				out = append(out, imp)
+			}
+		}
+		if from.Name() == name || from.Path() == name {
+			out = append(out, from)
+		}
+	}
+	if len(out) == 0 {
+		if p := w.findPkg(name, nil); p != nil {
+			out = append(out, p)
+		}
+	}
+	return out
+}
+
 func (w *World) findPkg(name string, from *types.Package) *types.Package {
+	if path, ok := w.Aliases[name]; ok {
+		return w.AllTypes[path]
+	}
 	if from != nil {
 		if from.Name() == name || from.Path() == name {
 			return from
@@ -307,6 +336,9 @@ func (v *FnVC) objTerm(o types.Object, env *Env) (Term, bool) {
 	case *types.Const:
 		return v.constValTerm(c.Val(), c.Type()), true
 	case *types.Var:
+		if c.Pkg() != nil && !strings.HasPrefix(c.Pkg().Path(), v.W.Module) {
+			return v.extGlobal(c.Pkg().Path(), c.Name(), c.Type()), true
+		}
 		// package-level variable: read from its cell
 		name := "glob_" + sanitize(c.Pkg().Path()+"."+c.Name())
 		v.S.declFun(name, "() Int")
@@ -439,7 +471,7 @@ func (v *FnVC) evalSel(e *ESel, env *Env) Term {
 				_, isLocal = env.lookup(id.Name)
 			}
 			if !isLocal {
-				if p := v.W.findPkg(id.Name, env.pkg); p != nil && (env.pkg == nil || p != env.pkg || env.pkg.Scope().Lookup(id.Name) == nil) {
+				for _, p := range v.W.findPkgs(id.Name, env.pkg) {
 					if o := p.Scope().Lookup(e.Sel); o != nil {
 						if t, ok := v.objTerm(o, env); ok {
 							return t
@@ -500,7 +532,7 @@ func (v *FnVC) fieldOf(x Term, name string, env *Env) Term {
 			v.fail("field %s of non-struct %s", name, cur.T)
 		}
 		f := st.Field(i)
-		cur = Term{S: fmt.Sprintf("(%s__%s %s)", v.S.SortOf(cur.T), sanitize(f.Name()), cur.S), Sort: v.S.SortOf(f.Type()), T: f.Type()}
+		cur = Term{S: fmt.Sprintf("(%s__%s %s)", v.S.SortOf(cur.T), fieldAcc(st, i), cur.S), Sort: v.S.SortOf(f.Type()), T: f.Type()}
 	}
 	return cur
 }
